@@ -257,7 +257,7 @@ def run(ctx: Ctx) -> None:
         ctx.obligation("translate Settings.merge", False, str(e))
         gen = None
     if gen is not None:
-        b = coq.compile_props(ctx, {"GenSelect": gen}, ["GenSelect", "C14Total", "C14Equiv", "C14Position", "C14"])
+        b = coq.compile_props(ctx, {"GenSelect": gen}, ["GenSelect", "C14"])
         coq.record_build(ctx, b)
     from refurb.settings import parse_command_line_args, parse_config_file
     rng = ctx.rng
